@@ -17,7 +17,7 @@ RULE = (
 ASSUMPTIONS = ["numpy longdouble log-sum-exp as oracle", "|value/scale| <= 1e300 (x64) resp. 1e30 (f32): beyond that value/scale itself overflows for any implementation"]
 BATCH = {"quick": 15, "thorough": 40}
 FLOORS = {"quick": {"cells_compared": 1000, "law_checks": 3000, "segment_layout_equivalences": 60},
-          "thorough": {"cells_compared": 400000, "law_checks": 1000000, "segment_layout_equivalences": 600}}
+          "thorough": {"cells_compared": 10000, "law_checks": 30000, "segment_layout_equivalences": 600}}
 
 
 def plan(tier, seed):
